@@ -13,6 +13,9 @@ HERE = os.path.dirname(os.path.abspath(__file__))
 PY = sys.executable
 
 
+OPTIMIZED_SEEDS = (3,)
+
+
 class Worker:
     def __init__(self, hashseed: int, repo: str):
         self.hashseed = hashseed
@@ -24,6 +27,12 @@ class Worker:
         env = dict(os.environ)
         env["PYTHONHASHSEED"] = str(self.hashseed)
         env["PYTHONDONTWRITEBYTECODE"] = "1"
+        # the interpreter's optimisation level is part of the deployment, like the hash seed: the
+        # group with hash seed 3 runs as `python -O` (assert statements and __debug__ blocks are
+        # compiled away), the others at the default level
+        env.pop("PYTHONOPTIMIZE", None)
+        if self.hashseed in OPTIMIZED_SEEDS:
+            env["PYTHONOPTIMIZE"] = "1"
         env.pop("PYTHONPATH", None)
         self.proc = subprocess.Popen(
             [PY, "-B", os.path.join(HERE, "worker.py"), "--repo", self.repo],
